@@ -247,7 +247,9 @@ def offset_provenance(ct: Container, rep, rule="offset-provenance"):
         cn = cfg.node_of(stmt) if stmt is not None else None
         if cn is None:
             # the expression sits inside the constructor call: its statement
-            st2 = next((s for s in walk_no_nested(ff.f.node) if isinstance(s, ast.stmt) and any(x is expr for x in ast.walk(s))), None)
+            cands = [s for s in walk_no_nested(ff.f.node) if isinstance(s, ast.stmt) and s is not ff.f.node
+                     and not isinstance(s, (ast.If, ast.For, ast.While, ast.Try, ast.With)) and any(x is expr for x in ast.walk(s))]
+            st2 = cands[-1] if cands else None
             cn = cfg.node_of(st2) if st2 is not None else None
         if cn is None:
             raise AnalysisError(f"{fq}: cannot locate the statement computing `{norm(expr)}`")
@@ -752,9 +754,11 @@ def parse_on_enter(ct: Container, rep, rule="parse-on-enter"):
 
 def size_from_fs(ct: Container, rep, rule="size-from-fs"):
     g = ct.prog.need_method(ct.tdf, "nBytes", "getter")
+    from .facts import return_leaves
     rets = [s for s in walk_no_nested(g.node) if isinstance(s, ast.Return)]
-    okk = len(rets) == 1 and rets[0].value is not None and norm(rets[0].value) in (
-        "self.file_path.stat().st_size", "os.path.getsize(self.file_path)", "os.stat(self.file_path).st_size")
+    leaves = return_leaves(g.node)
+    okk = bool(leaves) and all(v is not None and norm(v) in (
+        "self.file_path.stat().st_size", "os.path.getsize(self.file_path)", "os.stat(self.file_path).st_size") for _, v, _ in leaves)
     if okk:
         rep.ok(rule, "Tdf.nBytes is the file system's size of the file")
     else:
@@ -786,7 +790,7 @@ def get_block_reads_disk(ct: Container, rep, rule="read-through-handle"):
         rep.fail(rule, MOD(ct), fq, d.stmt, "the block is not decoded from the handle positioned at the entry's offset")
         return
     # entry comes from self.entries on every path; format and class from the same entry
-    defs = ff.defs.get(ent, [])
+    defs = ff.origins(ent)
     if defs and all(ct.is_entries_elem(v) or ct.is_next_over_entries(v) for v, st in defs):
         rep.ok(rule, f"{fq}: `{ent}` is an element of the in-memory table on every path")
     else:
